@@ -41,6 +41,11 @@ class MH(ProposalBasedSampler):
             raise ValueError("Proposal must be a cuqi.distribution.Distribution object")
         if not self.proposal.is_symmetric:
             raise ValueError("Proposal must be symmetric")
+        # is_symmetric describes the symmetry of the distribution about its mean; the random-walk
+        # increments must be symmetric about zero for the acceptance ratio without proposal ratio
+        mean = getattr(self.proposal, 'mean', None)
+        if mean is not None and not callable(mean) and np.any(np.asarray(mean) != 0):
+            raise ValueError("Proposal must be symmetric about zero (zero mean)")
 
     def step(self):
         # propose state
